@@ -17,9 +17,9 @@ import (
 func mkBatch(it bItem) edge.BufferedBatchMessage {
 	pts := make([]edge.BatchPointMessage, len(it.pts))
 	for i, p := range it.pts {
-		pts[i] = edge.NewBatchPointMessage(models.Fields(p.fields), models.Tags(p.tags), rt.DefaultTime.T(p.t))
+		pts[i] = edge.NewBatchPointMessage(models.Fields(p.fields), models.Tags(p.tags), curTM.T(p.t))
 	}
-	begin := edge.NewBeginBatchMessage(it.name, models.Tags(it.gtags), it.byName, rt.DefaultTime.T(it.tmax), len(pts))
+	begin := edge.NewBeginBatchMessage(it.name, models.Tags(it.gtags), it.byName, curTM.T(it.tmax), len(pts))
 	begin.SetDimensions(models.Dimensions{ByName: it.byName, TagNames: it.dims})
 	return edge.NewBufferedBatchMessage(begin, pts, edge.NewEndBatchMessage())
 }
@@ -41,7 +41,7 @@ func replayBatchChan(sources [][]bItem, recTime bool, zero int) (outs [][]any, e
 			close(ch)
 		}(items)
 	}
-	errC := kapacitor.ReplayBatchFromChan(&fixedClock{rt.DefaultTime.T(zero)}, chans, bcs, recTime)
+	errC := kapacitor.ReplayBatchFromChan(&fixedClock{curTM.T(zero)}, chans, bcs, recTime)
 	select {
 	case err := <-errC:
 		if err != nil {
@@ -67,12 +67,12 @@ func replayStreamChan(items []sItem, recTime bool, zero int) (out []any, errStr 
 	ch := make(chan edge.PointMessage)
 	go func() {
 		for _, it := range items {
-			ch <- edge.NewPointMessage(it.name, it.db, it.rp, models.Dimensions{}, models.Fields(it.fields), models.Tags(it.tags), rt.DefaultTime.T(it.t))
+			ch <- edge.NewPointMessage(it.name, it.db, it.rp, models.Dimensions{}, models.Fields(it.fields), models.Tags(it.tags), curTM.T(it.t))
 		}
 		close(ch)
 	}()
 	col := &streamCol{}
-	errC := kapacitor.ReplayStreamFromChan(&fixedClock{rt.DefaultTime.T(zero)}, ch, col, recTime)
+	errC := kapacitor.ReplayStreamFromChan(&fixedClock{curTM.T(zero)}, ch, col, recTime)
 	select {
 	case err := <-errC:
 		if err != nil {
